@@ -38,8 +38,11 @@ class Builder:
             return getattr(h.primitives, of.kind)(**prim_params(of))
         if isinstance(of, Ext):
             if id(of) not in self.ecache:
+                kw = {} if of.params is None else {"paramtype": dict}
                 self.ecache[id(of)] = h.ExternalModule(
-                    name=of.name, port_list=[h.Port(name=p, width=w) for p, w in of.ports], paramtype=dict)
+                    name=of.name, port_list=[h.Port(name=p, width=w) for p, w in of.ports], **kw)
+            if of.params is None:  # parameter-less external module (default param class)
+                return self.ecache[id(of)]()
             return self.ecache[id(of)](prim_params(of))
         raise TypeError(of)
 
